@@ -3,6 +3,7 @@ CONSTANTS Params = {1, 2, 3, 4}
  Dim <- TraceDim
  Canon <- TraceCanon
  HasFitTransform = TRUE
+ HasCrossVal = TRUE
  Thresholds = {1, 2, 3, 4}
  ValSets = {1, 2, 3}
  Strategies = {1, 2, 3, 4}
